@@ -64,6 +64,7 @@ impl FilterChain {
 //@ sig fn render_to(&self, writer: &mut Sink, runtime: &dyn Runtime) -> (r: Result<()>)
 //@ spec
     requires !old(writer).failed@,
+        runtime.writable(),                                                            // [C02:scope_has_assignment_and_counter_layers]
     ensures
         sink_safe(*old(writer), *final(writer), r),                                               // [C10:output_tag_failed_sink_is_error]
         r is Ok ==> (self.denotes(runtime) is Some && final(writer).log@ == old(writer).log@.push(Ev::Write("{}"@))),   // [C10:output_tag_writes_exactly_once]
